@@ -138,9 +138,10 @@ class Ctx:
         self.cov['cone_files'] = cone
         self.cov['recompiled'] = res.compiled
         if res.ok:
-            log = res.log_of(target)
-            self.assumptions = coqbuild.assumptions_from_log(log)
-            self.thm_names = [n for f, n in obl if f == target]
+            self.assumptions = []
+            for t in targets:
+                self.assumptions += coqbuild.assumptions_from_log(res.log_of(t))
+            self.thm_names = [n for f, n in obl if f in targets]
             self.cov['property_theorems'] = self.thm_names
         for f, tail in res.failed:
             if tail == 'dependency failed':
@@ -149,7 +150,8 @@ class Ctx:
         for p in probs:
             self.broken.append({'kind': 'obligation', 'name': 'lint', 'detail': p, 'candidates': []})
         if res.ok and not probs and self.tier == 'thorough' and not os.environ.get('VERIF_NO_COQCHK'):
-            self.coqchk(target)
+            for t in targets:
+                self.coqchk(t)
         self.log('prove %s: %s (%d files, %d recompiled, %.1fs, %d obligations)' % (
             target, 'ok' if res.ok and not probs else 'BROKEN', len(cone), len(res.compiled), res.seconds, len(obl)))
         return res.ok and not probs
@@ -163,6 +165,7 @@ class Ctx:
                             '-Q', 'props', 'PKProps', mod], cwd=str(coqbuild.COQ), capture_output=True, text=True)
         out = r.stdout + r.stderr
         summary = ' '.join(out[out.find('CONTEXT SUMMARY'):].split()) if 'CONTEXT SUMMARY' in out else out[-600:]
+        self.cov.setdefault('coqchk_all', []).append(mod)
         self.cov['coqchk'] = {'module': mod, 'rc': r.returncode, 'seconds': round(time.time() - t0, 1), 'summary': summary[:1500]}
         self.cov.setdefault('trusted_extra', []).append('coqchk -o %s: rc=%d; %s' % (mod, r.returncode, summary[:600]))
         self.log('coqchk %s rc=%d (%.0fs)' % (mod, r.returncode, time.time() - t0))
